@@ -32,26 +32,43 @@ RULE = ("cases = (initial hosts-file content, backup present or not, host map / 
         "when a line was filtered, a backup made, a fault or crash injected, or two instances overlapped; "
         "distinct = distinct canonical case description")
 MANIFEST = dict(
-    level_text=("Machine-checked Lean 4 theorems over a statement-by-statement model of rewrite_etc_hosts / "
-                "restore_etc_hosts (a resumption issuing file-system operations) run on a file-system model with "
-                "inodes, hard links and atomic rename: for every content, host map and port the new content is "
-                "exactly the non-own lines followed by the sorted host lines (C14_rewrite); lines marked for another "
-                "port are never own (C14_foreign_marker_kept, from injectivity of decimal rendering); for every update "
-                "history the file is original-lines + current block and after restore the original lines "
-                "(C14_session); for every crash point k the hosts path holds the old or the new complete content "
-                "(C14_atomic); any non-overlapping history of several instances keeps the original lines and one "
-                "block per instance (C14_serial_instances). The statement for overlapping read-modify-write "
-                "sequences is proved FALSE (C14_concurrent_full_false: lost update and resurrection) and replayed "
-                "on the real function. The model is tied to the code on every run by a differential run "
-                "(operation list, every answer, every intermediate file content) plus an oracle on the real files."),
+    level_text=("Machine-checked Lean 4 theorems (19, core Lean + Std, no sorry/axiom/native_decide) over a "
+                "statement-by-statement model of rewrite_etc_hosts / restore_etc_hosts (a resumption issuing "
+                "file-system operations) run on a file-system model with inodes, hard links and atomic rename. "
+                "For every content, host map and port the new content is exactly the non-own lines followed by the "
+                "sorted host lines (C14_rewrite). The marker match is exact for all ports p, q and any surrounding "
+                "text: a line marked for q is matched by p iff p = q, never by a decimal prefix or extension "
+                "(C14_marker_match_exact, C14_marker_prefix_ports, C14_foreign_marker_kept; the match expression and "
+                "marker format are regenerated from the source and pinned). For every update history the file is "
+                "original-lines + current block and after restore the original lines (C14_session). For every crash "
+                "point k the hosts path holds the old or the new complete content (C14_atomic). For EVERY history of "
+                "one port - updates in any order with repeats, restores, error endings, later sessions on the same "
+                "port - over every initial file the lines not carrying the port's marker are the same file line for "
+                "line (C14_history_foreign_lines, exact form C14_history_foreign_lines_exact), also when a rewrite is "
+                "cut at any operation k and any history follows (C14_history_crash_recovery). Any non-overlapping "
+                "history of several instances keeps the original lines and one block per instance "
+                "(C14_serial_instances); only each port's last map matters, not the order "
+                "(C14_serial_order_irrelevant), so two instances that do not overlap commute "
+                "(C14_two_instances_commute). The statement for OVERLAPPING read-modify-write sequences is proved "
+                "FALSE (C14_concurrent_full_false: lost update; C14_concurrent_resurrection) and replayed on the real "
+                "function. The model is tied to the code on every run by a differential run (operation list, every "
+                "answer, every intermediate file content) plus an oracle on the real files; what stays decided by "
+                "oracle only is the part outside rewrite/restore: firewall.main's exit path (teardown errors, "
+                "refused file-system calls, a dead stderr at -v/-vv) and open-flag / temp-location behaviour."),
     level_note=("Trusted: Lean kernel; axioms propext/Classical.choice/Quot.sound only; the correspondence harness; "
                 "the file-system model (rename atomic, a crash loses nothing already done, no fsync semantics, "
                 "owner/mode bits not checked on disk); CPython text-mode decoding/newline translation. Reading of "
-                "'lines': terminators normalised, white space at the very end of the file is not a line. "
+                "'lines': terminators normalised, white space at the very end of the file is not a line (EqEof in "
+                "the history theorems is equality up to exactly that; equality is exact when the non-own lines end "
+                "in a non-blank line). Hypotheses: host names/addresses free of line breaks (and of '#' for the "
+                "multi-instance theorems); the per-port temporary is not another name of the hosts file (Apart / "
+                "TmpApart, preserved by every complete rewrite: apart_rewrite); the crash-recovery theorem covers one "
+                "cut rewrite per history (several cuts are covered by the harness only). "
                 "Known finding F10: two instances whose rewrites overlap lose / resurrect each other's lines "
                 "(needs a lock; recorded, not fixed)."),
-    technique="Lean 4 proof (resumption semantics + invariants, decide witnesses for the race) + differential "
-              "correspondence with the real rewrite_etc_hosts under crash/fault/interleaving injection",
+    technique="Lean 4 proof (resumption semantics + invariants by induction over histories, decide witnesses for the "
+              "race) + differential correspondence with the real rewrite_etc_hosts under crash/fault/interleaving "
+              "injection + whole-helper sessions through the real firewall.main",
 )
 DRIVER_TARGETS = ['SshuttleModel.Spec.HostsFile']
 ASSUMPTIONS = [
